@@ -99,6 +99,7 @@ func runC08(r *vf.Run) {
 			if !r.Want(qid) {
 				continue
 			}
+			rng := r.RNG(qid) // a stream of its own per query value, so that a replay of this case alone draws the same choices
 			var e *oracle.Expr
 			var gb []string
 			if id == "regress-twice" && qi == 0 {
